@@ -10,7 +10,8 @@ Replays run with both removed.
 import builtins
 import sys
 
-sys.path.insert(0, "/repo")
+import os
+sys.path.insert(0, os.environ.get("FVSYM_REPO") or "/repo")
 
 INF = 2 ** 63
 _saved = {}
